@@ -15,6 +15,11 @@ CHECKS = {
    text='Bounded exhaustive exploration of the expression language at the parser/complement-elimination seam: every tree up to the stated size, in every spelling within the deviation bound, is parsed with the real get_ast and pot_complement and compared with the generating tree under all 2^n sense assignments; the same spelled expressions are also sent through the whole converter and compared at arrangement witnesses.',
    note='Trusted: PEG shim in place of the TatSu runtime (grammar file and semantic actions are the repository\'s), MCNP expression rules. Random generation beyond the bound is replaced by a larger exhaustive bound in the thorough tier.',
    tech='explicit choice-tree enumeration of expressions x spellings; truth-table comparison over all sense assignments'),
+
+ 'C02': dict(cat='model_checking', ref='4/C02',
+   text='Bounded exhaustive exploration of surface cards: every mnemonic with every parameter vector of a finite alphabet (full product, deviation-bounded for SQ/GQ) is converted in a one-surface deck; each emitted SURF is proved to have the zero set of the MCNP equation by polynomial identification on a unisolvent point set (a decision for all points), and the -s/+s probe volumes are compared with the MCNP sense on a lattice realising every sign vector.',
+   note='Trusted: MCNP surface equations/sense rules and TRIPOLI-4 surface conventions (DESIGN 5). Continuous parameters are covered at the alphabet values only. Excluded: SQ with positive-sense centre, spindle tori.',
+   tech='explicit enumeration of cards; polynomial identification + sign-vector comparison per card'),
 }
 NA_REASON = 'check not built yet in this build round (planned, see DESIGN.md section 4); no claim is made'
 
